@@ -132,9 +132,10 @@ class Tape:
 class Sim:
     """Per-program simulator state: world, tape, event log, counters."""
 
-    def __init__(self, world: World, tape: Tape):
+    def __init__(self, world: World, tape: Tape, lossy_str: bool = False):
         self.world = world
         self.tape = tape
+        self.lossy_str = lossy_str
         self.log: List[Tuple] = []
         self.fired: Dict[str, int] = {}
         self.seq = 0
@@ -184,10 +185,14 @@ class StubTerm(Term):
         return hash((self.support, self.sem))
 
     def __str__(self) -> str:
+        # Printing is not a primitive with a contract: in "lossy" worlds different terms over the same variables print
+        # identically (as polyhedral terms do beyond four significant digits); the algebra may not use str() as an identity.
+        if SIM is not None and SIM.lossy_str:
+            return "P[%s]" % ",".join(self.support)
         return "P[%s]%x" % (",".join(self.support), self.sem)
 
     def __repr__(self) -> str:
-        return "<StubTerm %s>" % self
+        return "<StubTerm P[%s]%x>" % (",".join(self.support), self.sem)
 
     def copy(self) -> "StubTerm":
         return StubTerm(self.support, self.sem)
